@@ -11,7 +11,8 @@
    creating the destination of a copy, one chunk written, copystat, open/write/close
    of backup_lock.json); the conformance harness (vf/fsstep.py, vf/props/c18.py)
    pauses the real process before exactly these operations and can SIGKILL it there.
-   restore / remodel / modify / delete are atomic (one process run each).
+   restore / remodel / modify / delete are atomic (one process run each); Damage is the environment
+   removing a backup copy (exercises the consistency scan of the constructor).
 
    A data tree is a sequence of file descriptions in directory-walk order:
      dir  0 = data root, 1 = "code" (an excluded directory), 2 = "sub-01", 3 = "sub-02/eeg"
